@@ -57,6 +57,10 @@ def correspondence(ctx, batch):
         samples = [{"f": s} for s in strings]
         if rng.random() < 0.2:
             samples.append({"f": None})
+        if rng.random() < 0.3:
+            samples.insert(rng.choice([0, 0, 1, len(samples)]), {"g": 1})
+        if rng.random() < 0.15:
+            samples = [{"g": 1}, {"f": "ok"}, {"f": "x" * rng.choice([19, 20, 25])}][::rng.choice([1, -1])]
         stages.stage_generate(batch, samples, registry)
         job = common.gen_job(rng)
         job["maxLit"] = rng.randint(0, 16)
@@ -79,14 +83,16 @@ def find_literals(tp, out):
     return out
 
 
-def check_case(strings, with_null, job, registry):
-    samples = [{"f": s} for s in strings] + ([{"f": None}] if with_null else [])
+def check_case(strings, with_null, job, registry, absent_at=None):
+    samples = [{"f": s, "g": 1} for s in strings] + ([{"f": None, "g": 1}] if with_null else [])
+    if absent_at is not None:
+        samples.insert(min(absent_at, len(samples)), {"g": 1})      # the position is optional by absence
     reg, text = real.run_library([("Root", samples)], registry, common.cmps_choice.__defaults__ or [], job) \
         if False else real.run_library([("Root", samples)], registry, [], job)
     ns = real.load_module(text)
     cls = ns["Root"]
     ann = real.hints(cls, ns, [])
-    name = next(iter(ann))
+    name = "f"
     lits = find_literals(ann[name], [])
     P = plain_strings(registry, strings)
     # "whenever, in addition, no string at that position had to be generalised to str": pseudo-typed strings of kinds
@@ -127,8 +133,15 @@ def falsify(ctx):
             strings, lim = gen_strings(rng), rng.choice(list(range(17)) + [20, 100])
         job.update({"maxLit": lim, "layout": "flat", "preamble": None, "postInit": False})
         with_null = rng.random() < 0.2
+        absent_at = rng.choice([None, None, 0, 1, len(strings)])
+        if i >= len(sweep) and rng.random() < 0.25:
+            # short strings first, a long one later (and the other way round), the key missing somewhere
+            strings = ["ok", "failed"][:rng.randint(1, 2)] + ["x" * rng.choice([19, 20, 25])]
+            if rng.random() < 0.5:
+                strings.reverse()
+            absent_at = rng.choice([0, 0, 1, None])
         try:
-            hit = check_case(strings, with_null, job, registry)
+            hit = check_case(strings, with_null, job, registry, absent_at)
         except stages.TooCostly:
             ctx.count("skip:too-costly")
             continue
@@ -137,13 +150,13 @@ def falsify(ctx):
         ctx.case((tuple(strings), job["maxLit"], job["fw"]), nontrivial=len(set(strings)) >= 2)
         ctx.sample({"strings": strings, "maxLit": job["maxLit"], "fw": job["fw"]}, limit=3)
         if hit:
-            hit.update({"strings": strings, "with_null": with_null, "job": job})
+            hit.update({"strings": strings, "with_null": with_null, "job": job, "absent_at": absent_at})
             yield hit
 
 
 def replay(ctx, hit):
     try:
-        return check_case(hit["strings"], hit["with_null"], hit["job"], stages.make_registry())
+        return check_case(hit["strings"], hit["with_null"], hit["job"], stages.make_registry(), hit.get("absent_at"))
     except stages.TooCostly:
         raise
     except Exception as e:  # noqa
